@@ -25,9 +25,10 @@ func runC03(p *Program, r *Report) {
 	for _, m := range []struct {
 		r string
 		n int
-	}{{"C03.R1", 15}, {"C03.R2", 1}, {"C03.R4", 15}, {"C03.R5", 5}, {"C03.R6", 4}, {"C03.R7", 2}, {"C03.R8", 1}, {"C03.R9", 1}, {"C03.R10", 1}, {"C03.R11", 1}, {"C03.R12", 1}, {"C03.R13", 1}} {
+	}{{"C03.R1", 15}, {"C03.R2", 1}, {"C03.R4", 15}, {"C03.R5", 5}, {"C03.R6", 4}, {"C03.R7", 2}, {"C03.R8", 1}, {"C03.R9", 1}, {"C03.R10", 1}, {"C03.R11", 1}, {"C03.R12", 1}, {"C03.R13", 1}, {"C03.R14", 1}} {
 		r.Min(m.r, m.n)
 	}
+	checkMemoHitNamesTheCopy(p, r, "C03.R14")
 	pl, err := loadPolicy(p)
 	if err != nil {
 		r.Undec("C03.R1", "template#policy", "", err.Error())
